@@ -52,6 +52,20 @@ class _Slot:
         self.parent.close()
 
 
+def _expired(s, timeout):
+    """The time limit of a unit is meant to catch hangs, not a busy machine: while the machine is overloaded
+    (load average above the number of cores) the clock of the unit runs proportionally slower; hard cap 8x."""
+    now = time.monotonic()
+    try:
+        load = os.getloadavg()[0]
+    except OSError:
+        load = 0.0
+    ncpu = os.cpu_count() or 1
+    s.used += (now - s.tick) * min(1.0, ncpu / max(load, 1.0e-9))
+    s.tick = now
+    return s.used > timeout or now - s.started > 8 * timeout
+
+
 def run_units(func, units, jobs, timeout=900.0, progress=None):
     """Yield (index, status, payload); status in {'ok','exc','timeout','died'}."""
     ctx = mp.get_context('fork')
@@ -65,7 +79,7 @@ def run_units(func, units, jobs, timeout=900.0, progress=None):
             for i, s in enumerate(slots):
                 if s.job is None and nxt < total:
                     s.job = nxt
-                    s.deadline = time.monotonic() + timeout
+                    s.used, s.tick, s.started = 0.0, time.monotonic(), time.monotonic()
                     s.parent.send((nxt, units[nxt]))
                     nxt += 1
             ready = mp.connection.wait([s.parent for s in slots if s.job is not None], timeout=1.0)
@@ -83,7 +97,7 @@ def run_units(func, units, jobs, timeout=900.0, progress=None):
                     s.job = None
                     done += 1
                     yield idx, st, payload
-                elif time.monotonic() > s.deadline:
+                elif _expired(s, timeout):
                     idx = s.job
                     s.kill()
                     slots[i] = _Slot(ctx, func)
